@@ -78,6 +78,22 @@ def run_case(case):
                        "meta": case.get("meta")}}
 
 
+def intrinsic_name_sources():
+    """Functions of the program named like the C symbols the builtins are lowered to (and like other well-known libc symbols), with
+    their own signatures, next to every builtin: the generator's symbol table is shared between the two. (cell, source) pairs;
+    also used by C03, which matches the defines of the IR against the functions of the source."""
+    for name in ("abort", "snprintf", "write", "printf", "exit", "memcpy", "malloc", "main_", "trap"):
+        for di, decl in enumerate(("fn %s()\n{\n}\n", "fn %s(code: i32)\n{\n}\n", "fn %s(code: i32) -> i32\n{\n\treturn: code\n}\n",
+                                   "extern fn %s(code: i32);\n", "extern fn %s();\n", "pub extern fn %s(a: i64, b: i64, c: i64, d: i64) -> i64\n{\n\treturn: a\n}\n",
+                                   "extern fn %s(buf: &[]u8, n: usize) -> u8;\n", "pub fn %s(code: i32) -> i32\n{\n\treturn: code + 1\n}\n")):
+            for ui, use in enumerate(("\tabort!();\n", "\tpanic!(\"bad\");\n", "\tprint!(\"n = \", x, \"\\n\");\n",
+                                      "\tif x == 2\n\t{\n\t\tpanic!(\"x = \", x);\n\t}\n\tprint!(\"ok\\n\");\n", "")):
+                for first in (True, False):
+                    main = "fn main() -> i32\n{\n\tvar x: i32 = 1;\n" + use + "\treturn: x\n}\n"
+                    src = (decl % name + "\n" + main) if first else (main + "\n" + decl % name)
+                    yield "`%s` declared in form %d %s builtin use %d" % (name, di, "before" if first else "after", ui), src
+
+
 def cases(tier, seed):
     rng = common.rng_for(seed, PROP)
     corpus = gen_mutate.corpus()
@@ -179,19 +195,9 @@ def cases(tier, seed):
         for pos, fmt in c11.POSITIONS.items():
             yield {"kind": "types", "files": [("types.pn", c11.ENUM_PRE + (fmt % text) + "\n\nfn main() -> i32\n{\n\treturn: 0\n}\n")],
                    "cell": "`%s` as %s" % (text, pos)}
-    # 14. functions of the program named like the C symbols the builtins are lowered to (and like other well-known libc symbols), with
-    #     their own signatures, next to every builtin: the generator's symbol table is shared between the two
-    for name in ("abort", "snprintf", "write", "printf", "exit", "memcpy", "malloc", "main_", "trap"):
-        for di, decl in enumerate(("fn %s()\n{\n}\n", "fn %s(code: i32)\n{\n}\n", "fn %s(code: i32) -> i32\n{\n\treturn: code\n}\n",
-                                   "extern fn %s(code: i32);\n", "extern fn %s();\n", "pub extern fn %s(a: i64, b: i64, c: i64, d: i64) -> i64\n{\n\treturn: a\n}\n",
-                                   "extern fn %s(buf: &[]u8, n: usize) -> u8;\n")):
-            for ui, use in enumerate(("\tabort!();\n", "\tpanic!(\"bad\");\n", "\tprint!(\"n = \", x, \"\\n\");\n",
-                                      "\tif x == 2\n\t{\n\t\tpanic!(\"x = \", x);\n\t}\n\tprint!(\"ok\\n\");\n", "")):
-                for first in (True, False):
-                    main = "fn main() -> i32\n{\n\tvar x: i32 = 1;\n" + use + "\treturn: x\n}\n"
-                    src = (decl % name + "\n" + main) if first else (main + "\n" + decl % name)
-                    yield {"kind": "intrinsic_names", "files": [("names.pn", src)],
-                           "cell": "`%s` declared in form %d %s builtin use %d" % (name, di, "before" if first else "after", ui)}
+    # 14. functions of the program named like the C symbols the builtins are lowered to (see intrinsic_name_sources)
+    for cell, src in intrinsic_name_sources():
+        yield {"kind": "intrinsic_names", "files": [("names.pn", src)], "cell": cell}
     # 11. dependency graphs of constants and structures in random declaration order, half of them with a cycle of length 1-5
     for i in range(2000 if quick else 40000):
         g_rng = common.rng_for(seed, PROP, "depgraph", i)
